@@ -60,6 +60,7 @@ type hTask struct {
 	Status    bool
 	Prompt    bool
 	Dir       bool // dir: work/<id> (does not exist before the first real run)
+	Call      bool // one cmds entry calls helper task chk-<id>, whose precondition fails while ctl/failcall-<id> exists
 	Dep       int  // -1 or index of the dependency
 }
 
@@ -114,6 +115,7 @@ func genHProj(ch *vs.Choices, prop string) *hProj {
 		t.Status = ch.Bool(1, 4)
 		t.Prompt = ch.Bool(1, 5)
 		t.Dir = ch.Bool(1, 5)
+		t.Call = ch.Bool(1, 3) || (prop == "C12" && ch.Bool(1, 2))
 		if i > 0 && ch.Bool(1, 3) {
 			t.Dep = ch.Draw(i)
 		}
@@ -175,11 +177,19 @@ func (p *hProj) YAML() string {
 		sb.WriteString("    cmds:\n")
 		fmt.Fprintf(&sb, "      - %s\n", yqH("echo b:"+t.ID+" >> "+pre+"trace.log"))
 		fmt.Fprintf(&sb, "      - %s\n", yqH("test ! -f "+pre+"ctl/fail-"+t.ID+"-1"))
+		if t.Call {
+			fmt.Fprintf(&sb, "      - task: chk-%s\n", t.ID)
+		}
 		if t.Generates {
 			fmt.Fprintf(&sb, "      - %s\n", yqH("echo generated > "+pre+"out/"+t.ID+".gen"))
 		}
 		fmt.Fprintf(&sb, "      - %s\n", yqH("test ! -f "+pre+"ctl/fail-"+t.ID+"-2"))
 		fmt.Fprintf(&sb, "      - %s\n", yqH("echo e:"+t.ID+" >> "+pre+"trace.log"))
+	}
+	for _, t := range p.Tasks {
+		if t.Call {
+			fmt.Fprintf(&sb, "  chk-%s:\n    desc: guarded helper\n    preconditions:\n      - sh: test ! -f ctl/failcall-%s\n        msg: helper refused\n", t.ID, t.ID)
+		}
 	}
 	// helpers: a task that always fails and wrappers that run a fingerprinted task next to it
 	sb.WriteString("  boom:\n    desc: always fails\n    cmds:\n      - exit 9\n")
@@ -360,9 +370,9 @@ func genHistory(ch *vs.Choices, p *hProj, prop, tier string) []hStep {
 	}
 	var out []hStep
 	weights := map[string][]string{
-		"C04": {"run", "run", "run", "run-yes", "op:fail", "op:clearfail", "both", "crash-cmd", "crash-cmd", "crash-fp", "dry", "status", "list-json", "op:edit", "op:touch", "run-force", "op:delgen"},
+		"C04": {"run", "run", "run", "run-yes", "op:fail", "op:failcall", "op:clearfail", "both", "crash-cmd", "crash-cmd", "crash-fp", "dry", "status", "list-json", "op:edit", "op:touch", "run-force", "op:delgen"},
 		"C05": {"run", "run", "run", "run-yes", "op:edit", "op:append", "op:touch", "op:add", "op:remove", "op:rename", "op:delgen", "op:status", "run-force", "op:edit-unmatched", "op:fail", "op:clearfail"},
-		"C12": {"run", "run-yes", "dry", "status", "list", "list-all", "list-json", "list-all-json", "list-json-nostatus", "summary", "op:edit", "op:fail", "op:clearfail", "op:delgen", "dry", "status"},
+		"C12": {"run", "run-yes", "dry", "status", "list", "list-all", "list-json", "list-all-json", "list-json-nostatus", "summary", "op:edit", "op:edit", "op:fail", "op:failcall", "op:failcall", "op:clearfail", "op:delgen", "dry", "dry", "status"},
 	}[prop]
 	advs := []time.Duration{time.Second, time.Second, 2 * time.Second, time.Minute, time.Hour, 48 * time.Hour}
 	for i := 0; i < n; i++ {
@@ -397,7 +407,7 @@ func (s hStep) String(p *hProj) string {
 			return fmt.Sprintf("+%v %s %s -> %s", s.Adv, s.Kind, s.File, s.New)
 		case "op:fail":
 			return fmt.Sprintf("+%v %s %s cmd %d", s.Adv, s.Kind, t.ID, s.Fail)
-		case "op:clearfail", "op:delgen", "op:status":
+		case "op:clearfail", "op:delgen", "op:status", "op:failcall":
 			return fmt.Sprintf("+%v %s %s", s.Adv, s.Kind, t.ID)
 		}
 		return fmt.Sprintf("+%v %s %s", s.Adv, s.Kind, s.File)
@@ -706,9 +716,12 @@ func runH(t *testing.T, ch *vs.Choices, prop, tier string, render bool) *vs.RunO
 						}
 					case "op:fail":
 						write(fmt.Sprintf("ctl/fail-%s-%d", tk.ID, s.Fail), "x")
+					case "op:failcall":
+						write("ctl/failcall-"+tk.ID, "x")
 					case "op:clearfail":
 						_ = os.Remove(filepath.Join(dir, "ctl", "fail-"+tk.ID+"-1"))
 						_ = os.Remove(filepath.Join(dir, "ctl", "fail-"+tk.ID+"-2"))
+						_ = os.Remove(filepath.Join(dir, "ctl", "failcall-"+tk.ID))
 					}
 					switch s.Kind {
 					case "op:edit", "op:append", "op:touch", "op:add", "op:remove", "op:rename":
